@@ -1,4 +1,4 @@
-import Infretis.Lemmas.FsRestart
+import Infretis.Lemmas.FsCheck
 /-!
 # C08 — a crash at any point leaves a restartable, consistent state
 
@@ -288,7 +288,8 @@ theorem continue_inv (cfg : Cfg) (M : Manifest) {m d m' d'} (hI : Inv M m d)
 /-- **continue_rows_unique** (the code as it is now): crash at ANY point of ANY step, restart
     from whatever complete record is on disk, continue in ANY way (steps, further crashes at any
     point + restarts): the data file has whole rows only, every path at most once, and no live
-    path — i.e. exactly the replaced paths, each once. -/
+    path.  (Audit 2026-09-30: this is the UPPER bound only — `rows_unique_not_exactly_once_counterexample`;
+    that every replaced path HAS its row is `script_rows_exactly_once`, under `Cover`.) -/
 theorem continue_rows_unique (cfg : Cfg) (M : Manifest) (m : Mem) (c : Choice) (d : Disk)
     (hI : Inv M m d) (hW : WF cfg M m c d) (hclean : cfg.cleanOnRestart = true) (k : Nat) (half : Bool)
     (r : Rec) (hr : (crashStep cfg m c d k half).restart = .complete r) (m' : Mem) (d' : Disk)
@@ -716,5 +717,359 @@ example :
 
 open Witness in
 example : Good cfgRep M (some m0) ⟨d0, .absent⟩ := ⟨inv0, rfl⟩
+
+
+/-! ## audit pass 2026-09-30: "exactly once" (the lower bound), the finished-run restart, a witness
+    that runs the delete block
+
+`continue_rows_unique` / `script_rows_unique` prove AT MOST once + disjoint from the live set
+(their docstrings said "exactly the replaced paths, each once"; the conclusions do not: see
+`rows_unique_not_exactly_once_counterexample`).  The lower bound needs one more fact about the
+step, `Cover` (the step keeps every live path it does not replace and makes the new paths live —
+`add_traj` / `sort_trajstate` / `live_paths()`; the tie evaluates it on every real step). -/
+
+/-- the data file has a row for every numbered path that is not live — alive: of the memory state;
+    dead: of the state a restart from the record on disk works on -/
+def CompleteS (cfg : Cfg) (M : Manifest) : Option Mem → RDisk → Prop
+  | some m, x => Complete m x.d
+  | none, x => ∀ r, x.d.restart = .complete r → Complete (restore M r x.d.files) (restoreDisk cfg r x.d)
+
+def EventCover (s : PState) : Event → Prop
+  | .step c => ∀ m, s.mem = some m → Cover m c
+  | .crash c _ _ => ∀ m, s.mem = some m → Cover m c
+  | _ => True
+
+def ScriptCover (cfg : Cfg) (M : Manifest) : PState → List Event → Prop
+  | _, [] => True
+  | s, e :: es => EventCover s e ∧ ScriptCover cfg M (runEvent cfg M s e) es
+
+/-- one event keeps the data file complete -/
+theorem event_complete (cfg : Cfg) (M : Manifest) (hclean : cfg.cleanOnRestart = true)
+    (s : PState) (e : Event) (hG : Good cfg M s.mem s.x) (hC : CompleteS cfg M s.mem s.x)
+    (hW : EventWF cfg M s e) (hcov : EventCover s e) :
+    CompleteS cfg M (runEvent cfg M s e).mem (runEvent cfg M s e).x := by
+  obtain ⟨mem, x⟩ := s
+  cases mem with
+  | some m =>
+    obtain ⟨hI, _⟩ := hG
+    cases e with
+    | work files => exact hC
+    | step c => exact step_complete cfg M m c x.d hI (hW m rfl) (hcov m rfl) hC
+    | crash c k half =>
+      intro r hr
+      exact restore_complete cfg M m c x.d hI (hW m rfl) (hcov m rfl) hC hclean k half r hr
+        (crash_restore_inv cfg M m c x.d hI (hW m rfl) hclean k half r hr)
+    | restartCrash jobs k half => exact hC
+    | restart jobs => exact hC
+  | none =>
+    obtain ⟨r, hs, _, ht⟩ := hG
+    cases e with
+    | work files => exact hC
+    | step c => exact hC
+    | crash c k half => exact hC
+    | restartCrash jobs k half =>
+      obtain ⟨h1, h2, h3, _⟩ := restart_crash_good cfg M x hclean r hs ht jobs k half
+      intro r' hr'
+      have hc1 := starts_complete M _ r h1
+      have hrr : r' = r := by
+        have hr'' : (crashAtR (restartRun cfg M x jobs).2 x k half).d.restart = .complete r' := hr'
+        rw [hc1] at hr''; injection hr'' with h; exact h.symm
+      subst hrr
+      show Complete (restore M r' (crashAtR (restartRun cfg M x jobs).2 x k half).d.files)
+        (restoreDisk cfg r' (crashAtR (restartRun cfg M x jobs).2 x k half).d)
+      rw [h2, h3]
+      exact hC r' (starts_complete M _ r' hs)
+    | restart jobs =>
+      have ho : (restartRun cfg M x jobs).1 = .starts r := by rw [restartRun_outcome]; exact hs
+      have hx : runR (restartRun cfg M x jobs).2 x
+          = ⟨{ x.d with data := cleanData x.d.data r.active },
+             if cleanData x.d.data r.active = x.d.data then x.dtmp else .absent⟩ := by
+        rw [restartRun_effs_of_starts cfg M x jobs r hs, if_pos hclean, run_clean_full]
+      have hrd : restoreDisk cfg r x.d = { x.d with data := cleanData x.d.data r.active } := by
+        unfold restoreDisk; rw [if_pos hclean]
+      have h := hC r (starts_complete M _ r hs)
+      rw [hrd] at h
+      simp only [runEvent, ho, hx]
+      exact h
+
+theorem script_complete (cfg : Cfg) (M : Manifest) (hv : cfg.variant = .repaired)
+    (hclean : cfg.cleanOnRestart = true) (es : List Event) :
+    ∀ (s : PState), Good cfg M s.mem s.x → CompleteS cfg M s.mem s.x → ScriptWF cfg M s es →
+      ScriptCover cfg M s es →
+      CompleteS cfg M (runScript cfg M s es).mem (runScript cfg M s es).x := by
+  induction es with
+  | nil => intro s _ hC _ _; exact hC
+  | cons e es ih =>
+    intro s hG hC hW hcov
+    show CompleteS cfg M (runScript cfg M (runEvent cfg M s e) es).mem
+      (runScript cfg M (runEvent cfg M s e) es).x
+    exact ih _ (event_good cfg M hv hclean s e hG hW.1)
+      (event_complete cfg M hclean s e hG hC hW.1 hcov.1) hW.2 hcov.2
+
+/-- **script_rows_exactly_once** (the code as it is now): after ANY script (steps of any kind, deaths
+    at any point of a step, restart attempts that die at any point of the restart, restarts), once a
+    process is alive, the rows of the data file are EXACTLY the path numbers handed out so far that
+    are not live — i.e. every replaced path, each exactly once. -/
+theorem script_rows_exactly_once (cfg : Cfg) (M : Manifest) (hv : cfg.variant = .repaired)
+    (hclean : cfg.cleanOnRestart = true) (es : List Event) (s : PState)
+    (hG : Good cfg M s.mem s.x) (hC : CompleteS cfg M s.mem s.x) (hW : ScriptWF cfg M s es)
+    (hcov : ScriptCover cfg M s es) (m' : Mem) (halive : (runScript cfg M s es).mem = some m') :
+    let d' := (runScript cfg M s es).x.d
+    d'.data.rows.Nodup ∧ d'.data.torn = false ∧ d'.data.garbled = 0
+      ∧ ∀ q, q ∈ d'.data.rows ↔ (q < m'.trajNum ∧ q ∉ pns m'.live) := by
+  have h := script_good cfg M hv hclean es s hG hW
+  have hc := script_complete cfg M hv hclean es s hG hC hW hcov
+  rw [halive] at h hc
+  obtain ⟨hI, _⟩ := h
+  obtain ⟨a, b, c, d⟩ := (rowsOK_iff _ _).1 hI.rows
+  refine ⟨c, a, b, fun q => ⟨fun hq => ⟨hI.rows_lt q hq, d q hq⟩, fun hq => hc q hq.1 hq.2⟩⟩
+
+/-- **script_restart_rows_exactly_once**: the same for the state a restart works on, whenever a
+    script ends without a live process (the restart starts by `script_restartable`). -/
+theorem script_restart_rows_exactly_once (cfg : Cfg) (M : Manifest) (hv : cfg.variant = .repaired)
+    (hclean : cfg.cleanOnRestart = true) (es : List Event) (s : PState)
+    (hG : Good cfg M s.mem s.x) (hC : CompleteS cfg M s.mem s.x) (hW : ScriptWF cfg M s es)
+    (hcov : ScriptCover cfg M s es) (hdead : (runScript cfg M s es).mem = none) :
+    ∃ r, restartOutcome M .restartToml (runScript cfg M s es).x.d = .starts r
+      ∧ ∀ q, q ∈ (restoreDisk cfg r (runScript cfg M s es).x.d).data.rows
+          ↔ (q < r.trajNum ∧ q ∉ r.active) := by
+  have h := script_good cfg M hv hclean es s hG hW
+  have hc := script_complete cfg M hv hclean es s hG hC hW hcov
+  rw [hdead] at h hc
+  obtain ⟨r, hs, hI, _⟩ := h
+  have hcr := hc r (starts_complete M _ r hs)
+  obtain ⟨_, _, _, d⟩ := (rowsOK_iff _ _).1 hI.rows
+  obtain ⟨r', hr', _, hact, htn, _⟩ := hI.record
+  have hrr : r' = r := by
+    have h1 : (restoreDisk cfg r (runScript cfg M s es).x.d).restart = .complete r := by
+      unfold restoreDisk; split <;> exact starts_complete M _ r hs
+    rw [h1] at hr'; injection hr' with h; exact h.symm
+  subst hrr
+  refine ⟨r', hs, fun q => ⟨fun hq => ⟨?_, ?_⟩, fun hq => ?_⟩⟩
+  · have := hI.rows_lt q hq; exact this
+  · rw [hact]; exact d q hq
+  · apply hcr q hq.1
+    rw [← hact]; exact hq.2
+
+namespace Witness
+
+/-- a "step" that silently drops the live paths 1 and 2 (no store, no row): it satisfies `WF` -/
+def cDrop : Choice :=
+  { accs := [], newLive := [p0], locked' := [], inc := true, halfRows := 0, halfTorn := false }
+
+theorem wfDrop : WF cfgRep M m0 cDrop d0 where
+  old_live := by decide
+  old_nodup := by decide
+  names_nodup := by decide
+  sources := by decide
+  few := by decide
+  new_live := by
+    intro p hp
+    simp only [cDrop, List.mem_cons, List.not_mem_nil, or_false] at hp
+    subst hp
+    left; decide
+  new_nodup := by decide
+  manifest := by decide
+  final := by intro h; cases h
+
+theorem cover0 : Cover m0 c0 where
+  keeps := by decide
+  news := by decide
+
+theorem complete0 : Complete m0 d0 := by
+  intro q hq hnl
+  have : q = 0 ∨ q = 1 ∨ q = 2 := by have : q < 3 := hq; omega
+  rcases this with rfl | rfl | rfl <;> exact absurd (by decide) hnl
+
+end Witness
+
+open Witness in
+/-- **rows_unique_not_exactly_once_counterexample**: `Inv` + `WF` alone (the hypotheses of
+    `step_inv`, `continue_rows_unique`, `script_rows_unique`) admit a step after which paths 1 and 2
+    are no longer live and have NO row: those theorems give "at most once", not "exactly once".
+    The step violates `Cover`, and `Complete` fails afterwards. -/
+theorem rows_unique_not_exactly_once_counterexample :
+    WF cfgRep M m0 cDrop d0
+    ∧ Inv M (stepMem cfgRep m0 cDrop d0) (run (stepEffs cfgRep m0 cDrop d0) d0)
+    ∧ (run (stepEffs cfgRep m0 cDrop d0) d0).data.rows = []
+    ∧ pns (stepMem cfgRep m0 cDrop d0).live = [0] ∧ (stepMem cfgRep m0 cDrop d0).trajNum = 3
+    ∧ ¬ Cover m0 cDrop
+    ∧ ¬ Complete (stepMem cfgRep m0 cDrop d0) (run (stepEffs cfgRep m0 cDrop d0) d0) := by
+  refine ⟨wfDrop, step_inv cfgRep M m0 cDrop d0 inv0 wfDrop, by decide, by decide, by decide, ?_, ?_⟩
+  · intro h
+    have := h.keeps p1 (by decide)
+    revert this; decide
+  · intro h
+    have := h 1 (by decide) (by decide)
+    revert this; decide
+
+open Witness in
+/-- non-vacuity of the "exactly once" theorems: the witness script of above (death after the data
+    row, two interrupted restarts, a restart, the redone job) satisfies `Good`, `CompleteS`,
+    `ScriptCover`, and ends with exactly the row of path 1 -/
+example :
+    let s0 : PState := { mem := some m0, x := ⟨d0, .absent⟩ }
+    Good cfgRep M s0.mem s0.x ∧ CompleteS cfgRep M s0.mem s0.x ∧ Cover m0 c0
+    ∧ (runScript cfgRep M s0 [.crash c0 12 false, .restartCrash 1 1 true, .restart 1,
+          .work [(40, 400), (41, 410)], .step c0]).x.d.data.rows = [1] :=
+  ⟨⟨inv0, rfl⟩, complete0, cover0, by decide⟩
+
+/-! ### the restart of a FINISHED run
+
+`WF.final` excludes the final `write_toml` of `loop()` right after a restart
+(`m.restartedFrom = some m.cstep`).  That transition IS reachable: restarting a finished run
+(`cstep = steps`, record not yet marked) goes through `setup_config`, sets `restarted_from = cstep`,
+issues nothing and `loop()` writes the record once more.  What it leaves is, by design
+(62f494c), a record from which the next restart stops — the one life cycle `script_good` does not
+cover. -/
+
+/-- **finished_run_restart_refuses**: the final `write_toml` of a life that made no step and has no
+    steps left writes a record from which `setup_config` returns None; and this event is exactly
+    what `WF.final` excludes. -/
+theorem finished_run_restart_refuses (cfg : Cfg) (M : Manifest) (m : Mem) (c : Choice) (d : Disk)
+    (hacc : c.accs = []) (hinc : c.inc = false) (hrf : m.restartedFrom = some m.cstep)
+    (hst : m.steps ≤ m.cstep) (hv : cfg.variant ≠ .renamedOpen) :
+    restartOutcome M .restartToml (run (stepEffs cfg m c d) d) = .refuses ∧ ¬ WF cfg M m c d := by
+  refine ⟨?_, fun h => (h.final hinc).2 hrf⟩
+  cases hvv : cfg.variant with
+  | renamedOpen => exact absurd hvv hv
+  | asIs =>
+    simp [stepEffs, hacc, accLoop, dataEffs, restartEffs, hvv, run, Effect.apply, setR,
+      restartOutcome, newRec, hinc, hrf, hst]
+  | repaired =>
+    simp [stepEffs, hacc, accLoop, dataEffs, restartEffs, hvv, run, Effect.apply, setR,
+      restartOutcome, newRec, hinc, hrf, hst]
+
+open Witness in
+/-- non-vacuity: path 1 replaced, run finished at cstep 2 = steps; the restart of the finished run
+    writes (cstep 2, restarted_from 2) and the next restart refuses -/
+example :
+    let m : Mem := { cstep := 2, restartedFrom := some 2, live := [p0, p3, p2], trajNum := 4, olds := [],
+                     locked := [], steps := 2 }
+    let c : Choice := { accs := [], newLive := [p0, p3, p2], locked' := [], inc := false, halfRows := 0,
+                        halfTorn := false }
+    restartOutcome M .restartToml (run (stepEffs cfgRep m c d0) d0) = .refuses :=
+  (finished_run_restart_refuses cfgRep M _ _ d0 rfl rfl rfl (by decide) (by decide)).1
+
+/-! ### a witness that runs the delete block
+
+The witness `m0 / c0` above replaces path 1 (≤ n-2): the delete_old block is skipped.  Here: n = 4,
+a full delete queue (3 > n-2 entries), an accepted zero swap replacing the late paths 5 and 6: two
+stores, two pops of the queue with delete_old_all (files, txt files, leftovers, two rmdir each), two
+data rows. -/
+namespace Witness2
+open Witness
+
+def q2 : PathInfo := { pn := 2, cid := 12, files := [(12, 120)] }
+def q3 : PathInfo := { pn := 3, cid := 13, files := [(13, 130)] }
+def q4 : PathInfo := { pn := 4, cid := 14, files := [(14, 140)] }
+def q5 : PathInfo := { pn := 5, cid := 15, files := [(15, 150)] }
+def q6 : PathInfo := { pn := 6, cid := 16, files := [(16, 160), (17, 170)] }
+def q7 : PathInfo := { pn := 7, cid := 17, files := [(18, 180)] }
+def q8 : PathInfo := { pn := 8, cid := 21, files := [(50, 500), (51, 510)] }
+def q9 : PathInfo := { pn := 9, cid := 22, files := [(52, 520)] }
+
+def M2 : Manifest := fun c =>
+  if c = 15 then some [15] else if c = 16 then some [16, 17] else if c = 17 then some [18]
+  else if c = 21 then some [50, 51] else if c = 22 then some [52] else none
+
+def r2 : Rec := { cstep := 6, restartedFrom := none, active := [5, 6, 7], trajNum := 8, locked := [] }
+
+def d2 : Disk :=
+  { files := [(.wfile 50, .complete 500), (.wfile 51, .complete 510), (.wfile 52, .complete 520)]
+      ++ filesOf q5 ++ filesOf q6 ++ filesOf q7 ++ filesOf q3 ++ filesOf q4 ++ filesOf q2
+    data := { rows := [0, 1, 2, 3, 4], garbled := 0, torn := false }
+    restart := .complete r2
+    tmp := .absent }
+
+def m2 : Mem :=
+  { cstep := 6, restartedFrom := none, live := [q5, q6, q7], trajNum := 8,
+    olds := [{ pn := 3, names := [13] }, { pn := 4, names := [14] }, { pn := 2, names := [12] }],
+    locked := [] }
+
+/-- accepted zero swap: paths 5 and 6 replaced by 8 and 9 -/
+def c2 : Choice :=
+  { accs := [{ old := q5, cid := 21, files := [(50, 500), (51, 510)] },
+             { old := q6, cid := 22, files := [(52, 520)] }]
+    newLive := [q8, q9, q7], locked' := [], inc := true, halfRows := 1, halfTorn := false }
+
+theorem inv2 : Inv M2 m2 d2 where
+  record := ⟨r2, rfl, rfl, rfl, rfl, by decide⟩
+  live_ok := by decide
+  live_nodup := by decide
+  olds := by decide
+  rows := by decide
+  rows_lt := by decide
+  rf := by intro R h; cases h
+
+theorem wf2 : WF cfgRep M2 m2 c2 d2 where
+  old_live := by decide
+  old_nodup := by decide
+  names_nodup := by decide
+  sources := by decide
+  few := by decide
+  new_live := by
+    intro p hp
+    simp only [c2, List.mem_cons, List.not_mem_nil, or_false] at hp
+    rcases hp with rfl | rfl | rfl
+    · right; exact ⟨0, _, rfl, rfl⟩
+    · right; exact ⟨1, _, rfl, rfl⟩
+    · left; decide
+  new_nodup := by decide
+  manifest := by decide
+  final := by intro h; cases h
+
+theorem cover2 : Cover m2 c2 where
+  keeps := by decide
+  news := by decide
+
+theorem complete2 : Complete m2 d2 := by
+  intro q hq hnl
+  have : q < 8 := hq
+  have h : q = 0 ∨ q = 1 ∨ q = 2 ∨ q = 3 ∨ q = 4 ∨ q = 5 ∨ q = 6 ∨ q = 7 := by omega
+  rcases h with rfl | rfl | rfl | rfl | rfl | rfl | rfl | rfl <;>
+    first | decide | exact absurd (by decide) hnl
+
+end Witness2
+
+open Witness Witness2 in
+/-- the hypotheses hold on a step that pops the delete queue twice: both queued paths 3 and 4 are
+    removed completely (two rmdir each), the queue afterwards is [2, 5, 6], rows 5 and 6 are
+    appended, and at the crash point between the two rows (k = data index + 1, half) the restart
+    starts from the old record with both rows cleaned away -/
+example : Inv M2 m2 d2 ∧ WF cfgRep M2 m2 c2 d2 ∧ Cover m2 c2 ∧ Complete m2 d2
+    ∧ Effect.rmdir (.pdir 3) ∈ stepEffs cfgRep m2 c2 d2 ∧ Effect.rmdir (.pdir 4) ∈ stepEffs cfgRep m2 c2 d2
+    ∧ (stepMem cfgRep m2 c2 d2).olds.map (·.pn) = [2, 5, 6]
+    ∧ (run (stepEffs cfgRep m2 c2 d2) d2).data.rows = [0, 1, 2, 3, 4, 5, 6]
+    ∧ (crashStep cfgRep m2 c2 d2 (dataIdx cfgRep m2 c2 d2 + 1) true).data.rows = [0, 1, 2, 3, 4, 5]
+    ∧ (restoreDisk cfgRep r2 (crashStep cfgRep m2 c2 d2 (dataIdx cfgRep m2 c2 d2 + 1) true)).data.rows
+        = [0, 1, 2, 3, 4] :=
+  ⟨inv2, wf2, cover2, complete2, by decide, by decide, by decide, by decide, by decide, by decide⟩
+
+
+/-! ### the hypotheses, evaluated on the real run
+
+`Inv`, `WF`, `Cover`, `Complete` are hypotheses of every theorem above.  `Model/FsCheck.lean` has
+executable versions; the driver (op `hyp`) evaluates them on every state and step outcome the tie
+reconstructs from the real run, and the tie reports a state for which one of them is false. -/
+
+/-- **hyp_checks_sound**: a `1` from the driver's hypothesis check means the hypothesis holds -/
+theorem hyp_checks_sound (cfg : Cfg) (M : Manifest) (m : Mem) (c : Choice) (d : Disk) :
+    (invB M m d = true → Inv M m d) ∧ (wfB cfg M m c d = true → WF cfg M m c d)
+    ∧ (coverB m c = true → Cover m c) ∧ (completeB m d = true → Complete m d) :=
+  ⟨invB_sound M m d, wfB_sound cfg M m c d, coverB_sound m c, completeB_sound m d⟩
+
+open Witness Witness2 in
+/-- the checks accept the two witness steps, reject the row-less drop of live paths (`coverB`), the
+    final write right after a restart (`wfB`, the finished-run case), a record whose traj_num is not
+    above a live path number and a data file with the row of a live path (`invB`) -/
+example : invB M m0 d0 = true ∧ wfB cfgRep M m0 c0 d0 = true ∧ coverB m0 c0 = true ∧ completeB m0 d0 = true
+    ∧ invB M2 m2 d2 = true ∧ wfB cfgRep M2 m2 c2 d2 = true ∧ coverB m2 c2 = true ∧ completeB m2 d2 = true
+    ∧ wfB cfgRep M m0 cDrop d0 = true ∧ coverB m0 cDrop = false
+    ∧ completeB (stepMem cfgRep m0 cDrop d0) (run (stepEffs cfgRep m0 cDrop d0) d0) = false
+    ∧ wfB cfgRep M { m0 with restartedFrom := some 1 } { c0 with accs := [], inc := false } d0 = false
+    ∧ invB M { m0 with trajNum := 2 } { d0 with restart := .complete { r0 with trajNum := 2 } } = false
+    ∧ invB M m0 { d0 with data := { rows := [1], garbled := 0, torn := false } } = false := by
+  decide
 
 end Infretis.C08
